@@ -458,6 +458,87 @@ fn probes(obs: &mut Obs, thorough: bool) -> Res {
     Ok(())
 }
 
+/// regular expressions of growing size in one dimension at a time (nesting depth, repetition count,
+/// number of alternatives, class items, length), every size of a dense range: `match` and `search`, the
+/// pattern written in the query and taken from the document.  Limits of the regex engine (nesting,
+/// compiled size) must surface as "no match", never as a panic.
+fn box_regex_sizes(obs: &mut Obs, thorough: bool) -> Res {
+    let shapes: [(&str, fn(usize) -> String); 7] = [
+        ("nested-groups", |n| format!("{}a{}", "(".repeat(n), ")".repeat(n))),
+        ("nested-groups-quantified", |n| format!("{}a{}", "(".repeat(n), ")?".repeat(n))),
+        ("nested-alternations", |n| format!("{}a{}", "(b|".repeat(n), ")".repeat(n))),
+        ("repetition-count", |n| format!("a{{{}}}", n)),
+        ("repetition-range", |n| format!("(a|b){{0,{}}}", n)),
+        ("alternatives", |n| vec!["a"; n.max(1)].join("|")),
+        ("class-items", |n| format!("[{}]", (0..n.max(1)).map(|i| char::from_u32(0x61 + (i % 26) as u32).unwrap().to_string() + "-z").collect::<String>())),
+    ];
+    let dense: Vec<usize> = (1..=if thorough { 600 } else { 300 }).collect();
+    let sparse: Vec<usize> = vec![1, 2, 10, 100, 255, 256, 1000, 1001, 1023, 1024, 4096, 65535, 65536, 100_000, 1_000_000];
+    let mut jobs: Vec<(&str, fn(usize) -> String, usize)> = vec![];
+    for (name, mk) in shapes {
+        let sizes: &Vec<usize> = if name.starts_with("nested") { &dense } else { &sparse };
+        for &n in sizes {
+            jobs.push((name, mk, n));
+        }
+    }
+    // interleave, so that every thread gets small and large sizes
+    let parts: Vec<Vec<(&str, fn(usize) -> String, usize)>> = (0..16).map(|t| jobs.iter().skip(t).step_by(16).cloned().collect()).collect();
+    let results: Vec<(Obs, Result<std::collections::BTreeMap<&str, u32>, Failure>)> = std::thread::scope(|sc| {
+        let hs: Vec<_> = parts
+            .into_iter()
+            .map(|part| {
+                std::thread::Builder::new()
+                    .stack_size(64 << 20)
+                    .spawn_scoped(sc, move || {
+                        let mut obs = Obs::new();
+                        let mut n_ok: std::collections::BTreeMap<&str, u32> = Default::default();
+                        for (name, mk, n) in part {
+                            let pat = mk(n);
+                            if pat.len() > 200_000 {
+                                continue;
+                            }
+                            let doc = json!({"re": pat, "s": ["a", 1]});
+                            let mut queries = vec![format!("$.s[?match(@, $.re)]"), format!("$.s[?search(@, $.re)]"), format!("$.s[?!match(@, $.re)]")];
+                            if pat.len() <= 2000 {
+                                queries.push(format!("$.s[?match(@, '{}')]", pat));
+                                queries.push(format!("$.s[?search(@, \"{}\")]", pat));
+                            }
+                            for q in queries {
+                                obs.nontrivial(&(name, n, q.len()), || json!({"shape": name, "size": n, "query": if q.len() < 200 { q.clone() } else { format!("{}...", &q[..80]) }}));
+                                match all_entry_points(&q, &doc, &mut obs) {
+                                    Ok(Out::Ok) => *n_ok.entry(name).or_insert(0) += 1,
+                                    Ok(Out::Err) => return (obs, Err(Failure::new("a valid query with a large regular expression is rejected", json!({"shape": name, "size": n, "query": q, "doc": doc})))),
+                                    Err(f) => return (obs, Err(f)),
+                                }
+                            }
+                        }
+                        (obs, Ok(n_ok))
+                    })
+                    .expect("spawn")
+            })
+            .collect();
+        hs.into_iter().map(|h| h.join().expect("box thread")).collect()
+    });
+    let mut total: std::collections::BTreeMap<&str, u32> = Default::default();
+    let mut first_failure = None;
+    for (o, r) in results {
+        obs.merge(o);
+        match r {
+            Ok(m) => m.into_iter().for_each(|(k, v)| *total.entry(k).or_insert(0) += v),
+            Err(f) => first_failure = first_failure.or(Some(f)),
+        }
+    }
+    if let Some(f) = first_failure {
+        return Err(f);
+    }
+    let table: Vec<Value> = shapes
+        .iter()
+        .map(|(name, _)| json!({"shape": name, "sizes": if name.starts_with("nested") { format!("every size 1..={}", dense.len()) } else { format!("{:?}", sparse) }, "evaluations_ok": total.get(name).copied().unwrap_or(0)}))
+        .collect();
+    obs.boxes.push(json!({"box": "regular expressions of growing size, one dimension at a time; match/search, pattern in the query and in the document", "table": table}));
+    Ok(())
+}
+
 fn direct(case: &Value, obs: &mut Obs) -> Res {
     let q = case["query"].as_str().unwrap_or("");
     all_entry_points(q, &case["doc"], obs).map(|_| ())
@@ -468,7 +549,7 @@ pub fn prop() -> Prop {
         id: ID,
         rule: "valid sentences, 1-3-edit near misses, token soup and arbitrary Unicode strings, extreme integers in every integer position (as text, also beyond i64, and as programmatic ASTs within the I-JSON range on arrays of length 0-3 and 200), \
                document-guided queries with filters/functions/regex, on scalar, empty, nested and wide documents; every case runs parse_json_path, query, query_with_path, query_only_path, js_path_process, reference and reference_mut (overflow checks on); \
-               scaling probes in child processes: nesting 8..65536 of ( , !( , [?@ , f( ; long chains; documents of depth 8..4096. Oracle: every call returns Ok or Err (no panic, abort, PEG call budget overrun, 40 s watchdog), Ok/Err agree across entry points, and a parsed query never evaluates to Err. \
+               scaling probes in child processes: nesting 8..65536 of ( , !( , [?@ , f( ; long chains; documents of depth 8..4096; regular expressions of every nesting depth 1..300 and of extreme repetition counts / alternatives / class sizes. Oracle: every call returns Ok or Err (no panic, abort, PEG call budget overrun, 40 s watchdog), Ok/Err agree across entry points, and a parsed query never evaluates to Err. \
                Non-trivial: an integer with >= 10 digits, nesting >= 8, a near miss / arbitrary string, a scalar or empty document, or a probe. Distinct by (query text, document size).",
         assumptions: vec![
             "the library is built with overflow-checks and debug-assertions on, so arithmetic overflow is a panic",
@@ -477,6 +558,7 @@ pub fn prop() -> Prop {
         ],
         subs: vec![
             Sub { name: "probes", kind: Kind::Exhaustive(probes) },
+            Sub { name: "box-regex-sizes", kind: Kind::Exhaustive(box_regex_sizes) },
             Sub { name: "random-valid", kind: Kind::Random { f: random_valid, quick: 30_000, thorough: 1_600_000, len: 600 } },
             Sub { name: "random-near-miss", kind: Kind::Random { f: random_near_miss, quick: 160_000, thorough: 3_200_000, len: 600 } },
             Sub { name: "random-extreme-text", kind: Kind::Random { f: random_extreme_text, quick: 80_000, thorough: 1_600_000, len: 64 } },
